@@ -1,5 +1,6 @@
 import Avfs.Lemmas.StepFacts
 import Avfs.Lemmas.WFRemove
+import Avfs.Lemmas.SubSim
 /-
   C11 — a Sub view shows exactly its subtree and keeps its own user, umask and cwd.
   Subject: views of the MemFS model (`FSState.views` over one shared `Store`, as `subFS := *vfs` copies them).
@@ -38,5 +39,53 @@ theorem C11_walk_attached (s : Store) (v : View) (root : Ino) (hv : v.root = roo
     (p : Bytes) (m : SlMode) :
     (searchNode s v p m).parent = root ∨ ∃ q qn, Edge s q qn (searchNode s v p m).parent :=
   hr_searchNode_parent_attached s v root hv p m
+
+/-! ### sub_sim: a view behaves as its parent on the prefixed path (paths that meet no symbolic link)
+
+  `subView v c` is what Sub returns for the directory node `c` (same user and umask, root `c`, working directory "/");
+  `a` are the components of the directory given to Sub, resolved by the parent to `c` (`ha`); `b ≠ []` are the components
+  of the path used through the view. The escape `… = .viaLink` covers symbolic links below the view root. The
+  directories above `c` are searched only through the parent: `ha` says the caller may. -/
+
+/-- resolution: same error class; same parent and child nodes once the view root itself may be searched
+    (`sub_sim_search_cex`: when it may not, both walks answer EACCES but stop at different nodes) -/
+theorem C11_sub_sim_search (s : Store) (root : Ino) (v : View) (hwf : WF s root) (hn : NamesOK s) (hv : ViewOK s v)
+    (hroot : v.root = root) (a b : List Bytes) (hb : b ≠ [])
+    (hall : ∀ x ∈ a ++ b, x ≠ [] ∧ ∀ y ∈ x, y ≠ SL) (hdots : ∀ x ∈ a ++ b, x ≠ [DOT] ∧ x ≠ [DOT, DOT])
+    (par c : Ino) (mt : Meta) (ch : List (Bytes × Ino))
+    (ha : walkPath s v root a = .found par c) (hc : s.get c = some (.dir mt ch)) (m : SlMode) :
+    let rv := searchNode s (subView v c) (SL :: joinWith SL b) m
+    let rp := searchNode s v (SL :: joinWith SL (a ++ b)) m
+    walkPath s v root (a ++ b) = .viaLink ∨
+      (rv.err = rp.err ∧ (checkPerm mt omLookup v = true → rv.child = rp.child ∧ rv.parent = rp.parent)) :=
+  sub_sim_search s root v hwf hn hv hroot a b hb hall hdots par c mt ch ha hc m
+
+/-- Mkdir through the view = Mkdir through the parent on the prefixed path: same outcome, same resulting heap -/
+theorem C11_sub_sim_mkdir (s : Store) (root : Ino) (v : View) (hwf : WF s root) (hn : NamesOK s) (hv : ViewOK s v)
+    (hroot : v.root = root) (a b : List Bytes) (hb : b ≠ [])
+    (hall : ∀ x ∈ a ++ b, x ≠ [] ∧ ∀ y ∈ x, y ≠ SL) (hdots : ∀ x ∈ a ++ b, x ≠ [DOT] ∧ x ≠ [DOT, DOT])
+    (par c : Ino) (mt : Meta) (ch : List (Bytes × Ino))
+    (ha : walkPath s v root a = .found par c) (hc : s.get c = some (.dir mt ch)) (perm : Nat) :
+    walkPath s v root (a ++ b) = .viaLink ∨
+    mkdir s (subView v c) (SL :: joinWith SL b) perm = mkdir s v (SL :: joinWith SL (a ++ b)) perm :=
+  sub_sim_mkdir s root v hwf hn hv hroot a b hb hall hdots par c mt ch ha hc perm
+
+theorem C11_sub_sim_remove (s : Store) (root : Ino) (v : View) (hwf : WF s root) (hn : NamesOK s) (hv : ViewOK s v)
+    (hroot : v.root = root) (a b : List Bytes) (hb : b ≠ [])
+    (hall : ∀ x ∈ a ++ b, x ≠ [] ∧ ∀ y ∈ x, y ≠ SL) (hdots : ∀ x ∈ a ++ b, x ≠ [DOT] ∧ x ≠ [DOT, DOT])
+    (par c : Ino) (mt : Meta) (ch : List (Bytes × Ino))
+    (ha : walkPath s v root a = .found par c) (hc : s.get c = some (.dir mt ch)) :
+    walkPath s v root (a ++ b) = .viaLink ∨
+    remove s (subView v c) (SL :: joinWith SL b) = remove s v (SL :: joinWith SL (a ++ b)) :=
+  sub_sim_remove s root v hwf hn hv hroot a b hb hall hdots par c mt ch ha hc
+
+theorem C11_sub_sim_stat (s : Store) (root : Ino) (v : View) (hwf : WF s root) (hn : NamesOK s) (hv : ViewOK s v)
+    (hroot : v.root = root) (a b : List Bytes) (hb : b ≠ [])
+    (hall : ∀ x ∈ a ++ b, x ≠ [] ∧ ∀ y ∈ x, y ≠ SL) (hdots : ∀ x ∈ a ++ b, x ≠ [DOT] ∧ x ≠ [DOT, DOT])
+    (par c : Ino) (mt : Meta) (ch : List (Bytes × Ino))
+    (ha : walkPath s v root a = .found par c) (hc : s.get c = some (.dir mt ch)) (m : SlMode) :
+    walkPath s v root (a ++ b) = .viaLink ∨
+    stat s (subView v c) (SL :: joinWith SL b) m = stat s v (SL :: joinWith SL (a ++ b)) m :=
+  sub_sim_stat s root v hwf hn hv hroot a b hb hall hdots par c mt ch ha hc m
 
 end Avfs.FS
